@@ -4,6 +4,7 @@ import os
 import stat
 
 from . import fstree
+from . import qlib
 from .common import gstr, coq_eval, parse_nested, cps_to_str, pmap
 
 MODE_COLS = ["mode", "is_file", "is_dir", "is_symlink", "is_pipe", "is_char", "is_block", "is_socket",
@@ -129,6 +130,168 @@ def spec_bools(m):
     return ["true" if b else "false" for b in t + p]
 
 
+DEFAULT_EXT = None
+
+
+def default_lists():
+    """The default extension lists, read from the source's Config::default (vec_of_strings! literals)."""
+    global DEFAULT_EXT
+    if DEFAULT_EXT is None:
+        import re
+        from .common import REPO
+        txt = open(os.path.join(REPO, "src", "config.rs")).read()
+        body = txt[txt.index("pub fn default() -> Config"):]
+        DEFAULT_EXT = {}
+        for m in re.finditer(r"(is_\w+): vec_of_strings!\[(.*?)\]", body, re.S):
+            DEFAULT_EXT[m.group(1)] = re.findall(r'"([^"]*)"', m.group(2))
+    return DEFAULT_EXT
+
+
+def rust_extension(name):
+    """std::path::Path::extension of a file name."""
+    if name in ("", ".."):
+        return ""
+    stem = name[1:] if name.startswith(".") else name
+    if "." not in stem:
+        return ""
+    return name.rsplit(".", 1)[1]
+
+
+def run_columns(ctx):
+    """Location, metadata, class and content columns of every entry of random trees vs the operating system."""
+    import pwd, grp, hashlib, time as _t
+    rng = ctx.rng
+    st = dict(n=0, ok=0, distinct=set(), samples=[])
+    cols = ["path", "name", "ext", "dir", "abspath", "absdir", "size", "uid", "gid", "user", "group", "inode", "hardlinks", "blocks", "modified", "is_hidden", "is_empty",
+            "is_archive", "is_audio", "is_book", "is_doc", "is_font", "is_image", "is_source", "is_video", "sha1", "sha256", "sha512", "sha3", "line_count", "is_shebang", "has_xattrs"]
+    lists = default_lists()
+    ntrees = 6 if ctx.tier == "quick" else 120
+    for t in range(ntrees):
+        root = os.path.join(ctx.scratch, "col%d" % t)
+        os.mkdir(root)
+        nodes = fstree.gen_tree(rng, max_entries=rng.choice([8, 20, 40]), max_depth=4, kinds=("file", "dir", "link", "sock"), adversarial=0.2,
+                                exts=["zip", "MP3", "epub", "Pdf", "ttf", "jpeg", "rs", "mkv", "tar.gz", "txt", "7z", "docx"])
+
+        def deco(ns):
+            for n in ns:
+                if n["kind"] == "file":
+                    n["content"] = rng.choice([b"", b"#!/bin/sh\nexit 0\n", b"no trailing newline", b"a\nb\nc\n", bytes(range(256)) * 3, b"x" * 70000 + b"\n", b"#", b"\n" * 9000])
+                    n["size"] = None
+                    if rng.random() < 0.3:
+                        n["mtime"] = rng.choice([0, 86399, 951782400, 1709164800, 2000000000])
+                    if rng.random() < 0.15:
+                        n["owner"] = rng.choice([(12345, 54321), (65534, 65534), (1, 1)])
+                elif n["kind"] == "dir":
+                    deco(n.get("kids", []))
+        deco(nodes)
+        fstree.build(root, nodes)
+        xattr_paths = set()
+        for dp, ds, fs in os.walk(root):
+            for f in fs:
+                p = os.path.join(dp, f)
+                if not os.path.islink(p) and os.path.isfile(p) and rng.random() < 0.15:
+                    try:
+                        os.setxattr(p, "user.verif", b"1")
+                        xattr_paths.add(p)
+                    except OSError:
+                        pass
+        rows, r = qlib.select(ctx.impl, ", ".join(cols), "from %s" % os.path.basename(root), cwd=ctx.scratch)
+        st["n"] += 1
+        case = {"tree": root, "query": r["query"]}
+        if rows is None or r["status"] != 0:
+            ctx.violation("impl-violates-spec", "column query failed: status %s stderr %r" % (r["status"], r["stderr"][:200]), input=case)
+            continue
+        good = True
+        for row in rows:
+            v = dict(zip(cols, row))
+            p = os.path.join(ctx.scratch, v["path"])
+            try:
+                ls = os.lstat(p)
+            except OSError:
+                ctx.violation("impl-violates-spec", "row for a path that does not exist: %r" % v["path"], input=case)
+                good = False
+                break
+            name = os.path.basename(v["path"])
+            islnk = stat.S_ISLNK(ls.st_mode)
+            exp = {"name": name, "ext": rust_extension(name), "dir": os.path.dirname(v["path"]), "size": str(ls.st_size), "uid": str(ls.st_uid), "gid": str(ls.st_gid),
+                   "inode": str(ls.st_ino), "hardlinks": str(ls.st_nlink), "blocks": str(ls.st_blocks),
+                   "modified": _t.strftime("%Y-%m-%d %H:%M:%S", _t.gmtime(int(ls.st_mtime))), "is_hidden": "true" if name.startswith(".") else "false",
+                   "absdir": os.path.realpath(os.path.dirname(p))}
+            try:
+                exp["user"] = pwd.getpwuid(ls.st_uid).pw_name
+            except KeyError:
+                exp["user"] = ""
+            try:
+                exp["group"] = grp.getgrgid(ls.st_gid).gr_name
+            except KeyError:
+                exp["group"] = ""
+            if not islnk:
+                exp["abspath"] = os.path.realpath(p)          # for links abspath is the target's path (recorded finding F50)
+            if stat.S_ISDIR(ls.st_mode):
+                exp["is_empty"] = "true" if not os.listdir(p) else "false"
+            elif not islnk:
+                exp["is_empty"] = "true" if ls.st_size == 0 else "false"
+            for k, exts in lists.items():
+                if k in cols:
+                    exp[k] = "true" if any(name.lower().endswith(e) for e in exts) else "false"
+            if stat.S_ISREG(ls.st_mode):
+                data = open(p, "rb").read()
+                exp.update(sha1=hashlib.sha1(data).hexdigest(), sha256=hashlib.sha256(data).hexdigest(), sha512=hashlib.sha512(data).hexdigest(),
+                           sha3=hashlib.sha3_512(data).hexdigest(), line_count=str(data.count(b"\n")), is_shebang="true" if data[:2] == b"#!" else "false",
+                           has_xattrs="true" if p in xattr_paths else "false")
+            elif stat.S_ISDIR(ls.st_mode):
+                exp.update(sha1="", sha256="", line_count="", is_shebang="false")
+            bad = [(k, v[k], e) for k, e in exp.items() if v.get(k) != e]
+            if bad:
+                ctx.violation("impl-violates-spec", "entry %r: column %s is %r, the operating system says %r" % (v["path"], bad[0][0], bad[0][1], bad[0][2]), input=case, all_mismatches=bad[:6])
+                good = False
+                break
+            st["distinct"].add((name, ls.st_size, ls.st_mode))
+            if len(st["samples"]) < 2 and stat.S_ISREG(ls.st_mode) and ls.st_size:
+                st["samples"].append({"path": v["path"], "size": v["size"], "sha1": v["sha1"], "line_count": v["line_count"], "ext": v["ext"], "modified": v["modified"]})
+        if good:
+            st["ok"] += len(rows)
+    # extension classes under a configuration file that overrides each list
+    home = os.path.join(ctx.scratch, "cfg_home")
+    os.makedirs(os.path.join(home, ".config", "fselect"))
+    over = {k: [".q%d" % i, ".zip"] for i, k in enumerate(lists) if k != "is_zip_archive"}
+    with open(os.path.join(home, ".config", "fselect", "config.toml"), "w") as f:
+        for k, vv in over.items():
+            f.write("%s = [%s]\n" % (k, ", ".join('"%s"' % x for x in vv)))
+    d = os.path.join(ctx.scratch, "cfgdir")
+    os.mkdir(d)
+    names = ["a.q0", "b.Q1", "c.zip", "d.mp3", "e.rs", "f.q5", "g.pdf", "noext", ".q2"]
+    for nme in names:
+        open(os.path.join(d, nme), "w").close()
+    ccols = [k for k in over]
+    rows, r = qlib.select(ctx.impl, "name, " + ", ".join(ccols), "from cfgdir", cwd=ctx.scratch, env={"HOME": home, "XDG_CONFIG_HOME": os.path.join(home, ".config")})
+    st["n"] += 1
+    if rows is None:
+        ctx.violation("impl-violates-spec", "config override query failed: %r" % r["stderr"][:200], input={"query": r["query"]})
+    else:
+        for row in rows:
+            for k, got in zip(ccols, row[1:]):
+                want = "true" if any(row[0].lower().endswith(e) for e in over[k]) else "false"
+                if got != want:
+                    ctx.violation("impl-violates-spec", "with the list %s = %s in the configuration, %s of %r is %s" % (k, over[k], k, row[0], got), input={"query": r["query"], "config": over})
+                    break
+        st["ok"] += len(rows)
+    # recorded finding F50
+    from .common import load_known
+    for k in load_known():
+        if k["property"] == "C04" and k["status"] == "known" and k["id"] == "F50":
+            dd = os.path.join(ctx.scratch, "f50")
+            os.mkdir(dd)
+            open(os.path.join(dd, "target.txt"), "w").close()
+            os.symlink("target.txt", os.path.join(dd, "lnk"))
+            rows, r = qlib.select(ctx.impl, "name, abspath", "from f50 where is_symlink = true", cwd=ctx.scratch)
+            if rows and rows[0][1].endswith("target.txt"):
+                ctx.known_lines.append("KNOWN-FINDING: property=C04 F50 abspath of a symbolic link is its target's path (canonicalize follows links), so abspath = absdir + '/' + name fails for links")
+            else:
+                ctx.notes.append("F50: witness no longer fails; update KNOWN_FINDINGS.json")
+    return st
+
+
 def run(ctx):
     ctx.prepare()
     ctx.check_proofs(thorough_clean=False)
@@ -137,8 +300,11 @@ def run(ctx):
         if not ok:
             ctx.proof_failure = "coqchk failed: " + out[-500:]
     m = run_modes(ctx)
+    c = run_columns(ctx)
+    ctx.coverage["columns_part"] = dict(queries=c["n"], entries_checked=c["ok"], distinct_entries=len(c["distinct"]), samples=c["samples"],
+                                        rule="random trees (files with contents: empty, shebang, no trailing newline, binary, > 64 KiB, 9000 newlines; mtimes incl. 0 and 2038+; owners without a name; xattrs; sockets; links incl. dangling; dot-files, several dots, upper-case extensions) - columns path,name,ext,dir,abspath,absdir,size,uid,gid,user,group,inode,hardlinks,blocks,modified,is_hidden,is_empty, the eight extension classes (default lists read from config.rs, and a configuration file overriding every list), sha1/sha256/sha512/sha3, line_count, is_shebang, has_xattrs compared with os.lstat, pwd/grp, hashlib and the directory contents")
     ctx.coverage.update(
-        evaluations=m["evaluations"], distinct_nontrivial=m["distinct"],
+        evaluations=m["evaluations"] + c["ok"], distinct_nontrivial=m["distinct"] + len(c["distinct"]),
         traces_validated_against_impl=m["agreed"],
         rule="one case = one on-disk entry (file types %s x %d permission values incl. suid/sgid/sticky); columns %s of the real binary compared with (a) the Gallina definitions generated from mode.rs evaluated by vm_compute and (b) lstat + ls -l notation; distinct = distinct st_mode values" % (m["kinds"], m["perms"], ",".join(MODE_COLS)),
         samples=m["samples"], exhaustive=(ctx.tier == "thorough"),
